@@ -395,6 +395,8 @@ pub fn scenario(name: &str, params: &Value) -> Scenario {
                 let props: Vec<Prop> = o.iter().map(|&i| props[i].clone()).collect();
                 let mut sys = Sys::new("C02", &name, chz);
                 sys.params = params.clone();
+                // (the broker uses topic alias 300: the client must have allowed that many)
+                sys.base_connect.topic_alias_maximum = Some(300);
                 sys.bring_up(vec![]);
                 sys.w.handle().verif_set_ids(1, sub_id);
                 sys.events.push(format!("PresetSubId({})", sub_id));
